@@ -36,7 +36,15 @@ func ConvertRequest(ctx *fasthttp.RequestCtx, r *http.Request, forServer bool) e
 	}
 	r.ContentLength = int64(len(body))
 	r.RemoteAddr = ctx.RemoteAddr().String()
-	r.Host = b2s(ctx.Host())
+	// Like net/http: the host of an absolute request target, else the Host
+	// header as it was sent (ctx.Host() is lower-cased).
+	r.Host = rURL.Host
+	if r.Host == "" {
+		r.Host = b2s(ctx.Request.Header.Host())
+	}
+	if r.Host == "" {
+		r.Host = b2s(ctx.Host())
+	}
 	r.TLS = ctx.TLSConnectionState()
 	r.Body = io.NopCloser(bytes.NewReader(body))
 	r.URL = rURL
@@ -58,6 +66,8 @@ func ConvertRequest(ctx *fasthttp.RequestCtx, r *http.Request, forServer bool) e
 		sv := b2s(v)
 
 		switch sk {
+		case fasthttp.HeaderHost:
+			// net/http promotes Host to Request.Host and drops it from the header map.
 		case "Transfer-Encoding":
 			r.TransferEncoding = append(r.TransferEncoding, sv)
 		default:
